@@ -853,7 +853,9 @@ class TorControlProtocol(LineOnlyReceiver):
         cookie_auth = False
         for line in protoinfo.split('\n'):
             if line[:5] == 'AUTH ':
-                kw = parse_keywords(line[5:].replace(' ', '\n'))
+                # "AUTH" SP "METHODS=" ... [SP "COOKIEFILE=" QuotedString];
+                # the file name may contain spaces and '='
+                kw = parse_keywords(line[5:].split(' ', 1)[0])
                 methods = kw['METHODS'].split(',')
         if not methods:
             raise RuntimeError(
